@@ -7,6 +7,7 @@ from props.c02 import varint
 CONNECT = "01200000cfd750831af1ff518263cf2f00b95d8749c87a3f89f058d360ea4567b13f"   # CONNECT https://a.b/x :protocol=webtransport
 GET = "010d0000d1d750831af1ff518263cf"
 PEER_SETTINGS = "00040e0801ab603742013301ab60374301"   # ec=1, wt=1, datagram=1, max sessions=1
+U = 2**64 - 1    # `cw<sid>:U` = unlimited write credit
 
 
 class C19(Prop):
@@ -20,42 +21,102 @@ class C19(Prop):
                   "that id, for every id incl. multi-byte varints); an incoming bidi stream's header is decoded by the frame layer "
                   "to exactly the session id the peer wrote, consuming exactly the header; for every chunking the bytes obtainable "
                   "after the header are exactly the bytes that follow it (corollary of the C02 invariant / C04 type resolution); "
-                  "uni streams are surfaced iff the extension is enabled")
+                  "uni streams are surfaced iff the extension is enabled; reading through AsyncRead::poll_read (futures and tokio) "
+                  "with EVERY sequence of positive caller buffer sizes hands out exactly those bytes, each once and in order, every "
+                  "call at least one byte and at most its buffer, Ok(0) only behind the last byte (induction over the size list, "
+                  "over the BufList::take_chunk(limit) model); for every session id, acceptance pattern of the transport and sequence "
+                  "of write calls (poll_send, futures/tokio poll_write, send_data+poll_ready, poll_finish/close/shutdown, reset) the "
+                  "wire of an opened uni/bidi stream is header(sid) ++ the bytes handed over, in order (a prefix while a call waits), "
+                  "it decodes to that sid with exactly those bytes behind it, and read back by the peer model it yields them again")
     level_note = ("trusted: Lean kernel + 3 axioms; models tied by real h3-webtransport WebTransportSession over SimQuic "
-                  "(accept, session_id, open_bi/open_uni, accept_bi/accept_uni, stream reads/writes, datagrams)")
+                  "(accept, session_id, open_bi/open_uni, accept_bi/accept_uni, BidiStream::split, stream reads through poll_data and "
+                  "through both AsyncRead impls with caller-chosen buffer sizes, writes through poll_send, both AsyncWrite impls and "
+                  "send_data/poll_ready under write credit granted a few bytes at a time, poll_finish/poll_close/poll_shutdown, "
+                  "reset/stop_sending, DatagramSender/DatagramReader); the per-call byte counts are compared with the model, the spec "
+                  "half of the driver has no opinion on them")
     rule = ("CONNECT on stream ids 0,4,8,…,256,16384,65536,2^30 (all varint forms), session accepted first or after "
             "other requests, payloads cut at every offset around the header/payload boundary (header and payload in one chunk, "
             "cuts inside either varint), extension enabled or not, uni and bidi, both directions, non-minimal varints in peer "
-            "headers; non-trivial = a session was accepted")
+            "headers; reads: poll_data, futures poll_read, tokio poll_read, mixed on one stream, before/after split, buffer sizes 1 "
+            "… larger than any chunk (cycling lists), data/FIN/RESET arriving before the accept, before the read or while it waits; "
+            "writes on opened and accepted streams: slices and DATA frames of 0…70 bytes, credit unlimited / 0,1,2,5 then grants of "
+            "1…50 bytes, left short, or STOP_SENDING while waiting; the stream header itself under initial credit 0…5; datagrams "
+            "for the session, for other ids, truncated / too large quarter ids; non-trivial = a session was accepted")
     trusted = []
-    assumptions = ["one WebTransport uni stream pending at a time (accept_uni pops the most recent)"]
+    assumptions = ["one WebTransport uni stream pending at a time (accept_uni pops the most recent)",
+                   "transport chunks are non-empty and FIN / RESET are sticky (SimQuic; R-T)",
+                   "a datagram error surfaces as a connection close at the next accept_bi / accept_uni of the session"]
 
     def project(self, line, impl):
         if " | " not in impl:
             return impl
         trace, summ = impl.split(" | ", 1)
         out = []
+        shown = set()
         for t in trace.split():
-            if re.match(r"^(conn\.(WT|sid|ob|ou|ab|au)|w\d+\.(wr|ra))=", t):
+            if re.match(r"^(conn\.(WT|sid|ob|ou|ab|au|dgs|dgr)|w\d+s?\.(wr|ra|rf|rt|sp|sd|wf|wt|fi|cl|sh|rst|ss))=", t):
                 out.append(t)
-        # a pending accept_uni is an observable when the extension is off
+            m = re.match(r"^conn\.(ab=bidi|au=uni):session=\d+:stream=(\d+)$", t)
+            if m:
+                shown.add(int(m.group(2)))
+        # calls still waiting (for data, for write credit, for a datagram; accept_uni when the extension
+        # is off) are observables: in the order of the summary (sorted by task name)
         m = re.search(r"pending=\[([^\]]*)\]", summ)
-        if m and "conn.au" in m.group(1).split(","):
-            out.append("conn.au=pending")
-        # bytes on streams the server opened (ids ≡ 1 mod 4 bidi, ≡ 3 mod 4 uni beyond the three setup streams)
-        for m in re.finditer(r"(\d+):tx=([0-9a-f-]+)", summ):
+        if m:
+            for e in m.group(1).split(","):
+                if re.match(r"^(conn\.(au|ob|ou|dgr)|w\d+s?\.\w+)$", e):
+                    out.append(e + "=pending")
+        # streams the server opened (ids ≡ 1 mod 4 bidi, ≡ 3 mod 4 uni beyond the three setup streams) and
+        # streams accepted for the session: bytes written, FIN / RESET / STOP_SENDING issued by h3
+        for m in re.finditer(r"(\d+):tx=(\S+)", summ):
             sid = int(m.group(1))
-            if sid % 4 == 1 or (sid % 4 == 3 and sid > 11):
+            if sid % 4 == 1 or (sid % 4 == 3 and sid > 11) or sid in shown:
                 out.append("%d:tx=%s" % (sid, m.group(2)))
+        m = re.search(r"closed=\[([^\]]+)\]", summ)
+        if m:
+            out.append("closed=[%s]" % m.group(1))
+        m = re.search(r"dgrams=\[[^\]]*\]", summ)
+        if m:
+            out.append(m.group(0))
         return " ".join(out)
 
     def klass_raw(self, line, raw):
         ops = line.split()[3:]
         c = [int(o[1:]) for o in ops if re.match(r"^o\d+$", o) and int(o[1:]) % 4 == 0]
-        return "connect=%s wt=%s %s%s%s%s" % (
-            "multi" if c and c[0] >= 64 else "small", "1" if "wt=1" in line.split()[2] else "0",
-            "ab " if "conn.ab" in line else "", "au " if "conn.au" in line else "",
-            "ob " if "conn.ob" in line else "", "ou" if "conn.ou" in line else "")
+        api = [o.split(".", 1)[1].split(":")[0] for o in ops if re.match(r"^w\d+s?\.", o)]
+        io = [k for k in api if k not in ("wr", "ra")]
+        dg = "conn.dgs" in line or "conn.dgr" in line
+        if not io and not dg and ",wc=" not in line.split()[2]:
+            # the cases about ids, headers and cuts (reads through poll_data, writes through poll_send)
+            return "connect=%s wt=%s %s%s%s%s" % (
+                "multi" if c and c[0] >= 64 else "small", "1" if "wt=1" in line.split()[2] else "0",
+                "ab " if "conn.ab" in line else "", "au " if "conn.au" in line else "",
+                "ob " if "conn.ob" in line else "", "ou" if "conn.ou" in line else "")
+        # the cases about the I/O faces: which read face(s), which write face(s), and the most telling thing that happened
+        names = {"ra": "poll_data", "rf": "futures", "rt": "tokio", "wr": "poll_send", "wf": "futures", "wt": "tokio", "sd": "send_data"}
+        rd = sorted({names[k] for k in api if k in ("ra", "rf", "rt")})
+        wr = sorted({names[k] for k in api if k in ("wr", "wf", "wt", "sd")})
+        trace = raw.split(" | ")[0]
+        if "H3_DATAGRAM_ERROR" in raw:
+            what = "datagram-error"
+        elif re.search(r"w\d+s?\.(w[rft]|sd)=err:rterm", trace):
+            what = "write-stopped"
+        elif re.search(r"w\d+s?\.r[aft]=[^ ]*err:rterm", trace):
+            what = "read-reset"
+        elif re.search(r"pending=\[[^\]]*(w\d|conn\.o)", raw):
+            what = "left-waiting"
+        elif re.search(r"w\d+s?\.w[ft]=ok:n=\d+,", trace) or ",wc=" in line.split()[2]:
+            what = "credit-piecewise"
+        elif re.search(r"w\d+s?\.r[ft]=[^ ]*:more", trace):
+            what = "read-partial"
+        elif "sp" in api:
+            what = "split"
+        elif dg:
+            what = "datagram"
+        else:
+            what = "plain"
+        return "io rd=%s wr=%s %s" % ("mixed" if len(rd) > 1 else rd[0] if rd else "-",
+                                      "mixed" if len(wr) > 1 else wr[0] if wr else "-", what)
 
     def trivial_raw(self, line, raw):
         return "conn.WT=ok" not in raw
@@ -79,7 +140,7 @@ class C19(Prop):
                 prev = p
         return out
 
-    def one_case(self, rng):
+    def one_case_basic(self, rng):
         wt = rng.random() < 0.85
         cfg = "g0,wt=%d,ec=1,dg=1,seed=%d" % (1 if wt else 0, rng.randrange(0, 1000))
         connect = rng.choice([0, 4, 8, 12, 60, 64, 256, 16380, 16384, 65536, 2**30, 2**30 + 4])
@@ -141,8 +202,312 @@ class C19(Prop):
             ops += final
         return "wt server %s %s" % (cfg, " ".join(ops))
 
+    # ------------------------------------------------------------------ I/O faces of the streams
+
+    def buf_sizes(self, rng, maxchunk):
+        """caller buffer sizes for `poll_read` (used cyclically): from 1 byte to larger than any chunk"""
+        k = rng.random()
+        if k < 0.2:
+            return [1]
+        if k < 0.3:
+            return [2]
+        if k < 0.4:
+            return [rng.choice([3, 5, 7])]
+        if k < 0.55:
+            return [rng.randrange(1, 6) for _ in range(rng.randrange(2, 5))]
+        if k < 0.65:
+            return [max(1, maxchunk - 1)]
+        if k < 0.75:
+            return [max(1, maxchunk)]
+        if k < 0.85:
+            return [maxchunk + 1]
+        if k < 0.95:
+            return [64]
+        return [4096]
+
+    def read_op(self, rng, maxchunk, calls=None):
+        m = rng.choice(["rf", "rf", "rt", "rt", "ra"]) if calls is None else rng.choice(["rf", "rt"])
+        if m == "ra":
+            return "ra"
+        return "%s:%s%s" % (m, ",".join(map(str, self.buf_sizes(rng, maxchunk))), "" if calls is None else ":%d" % calls)
+
+    def merge(self, rng, a, b):
+        """random interleaving of two op lists, each keeping its order"""
+        a, b, out = list(a), list(b), []
+        while a or b:
+            if a and (not b or rng.random() < len(a) / (len(a) + len(b))):
+                out.append(a.pop(0))
+            else:
+                out.append(b.pop(0))
+        return out
+
+    def write_program(self, rng, task, sid, limited_cfg):
+        """write calls on a send side: slices through poll_send / futures / tokio poll_write, DATA frames through
+        send_data + poll_ready, under write credit granted a few bytes at a time; then a finishing call"""
+        ops = []
+        lim = rng.random() < 0.6
+        if lim:
+            ops.append("cw%d:%d" % (sid, rng.choice([0, 0, 1, 2, 5])))
+        elif limited_cfg:
+            ops.append("cw%d:%d" % (sid, U))
+        credit = None
+        if lim:
+            credit = int(ops[0].split(":")[1])
+        alive = True
+        for _ in range(rng.randrange(1, 4)):
+            kind = rng.choice(["wr", "wf", "wf", "wt", "wt", "sd", "sd"])
+            n = rng.choice([0, 1, 2, 3, 8, 20, 70])
+            data = [rng.getrandbits(8) for _ in range(n)]
+            ops.append("%s.%s:%s" % (task, kind, hx(data)))
+            need = n if kind != "sd" else n + 1 + (1 if n < 64 else 2)
+            if not lim:
+                continue
+            fate = rng.random()
+            if fate < 0.07:
+                # the peer asks to stop while the call waits (or right after it)
+                ops.append("x%d:%d" % (sid, rng.choice([0, 7, 300])))
+                if rng.random() < 0.5:
+                    ops.append("%s.%s:%s" % (task, rng.choice(["wr", "wf", "wt", "sd"]), hx([1, 2])))
+                alive = False
+                break
+            short = fate < 0.15
+            while credit < need:
+                g = rng.choice([1, 1, 2, 3, 6, 50])
+                if short and credit + g >= need:
+                    break
+                ops.append("gw%d:%d" % (sid, g))
+                credit += g
+            if credit < need:
+                alive = False      # the call stays pending: nothing more on this task
+                break
+            credit -= need
+        if alive:
+            k = rng.random()
+            if k < 0.2:
+                ops.append("%s.fi" % task)
+            elif k < 0.4:
+                ops.append("%s.cl" % task)
+            elif k < 0.6:
+                ops.append("%s.sh" % task)
+            elif k < 0.75:
+                ops.append("%s.rst:%d" % (task, rng.choice([0, 5, 2**32])))
+        return ops, alive
+
+    def incoming(self, rng, sid, bidi, connect, limited_cfg):
+        """a WebTransport stream opened by the peer: (ops up to and including the accept, thread of later ops)"""
+        sess = connect if rng.random() < 0.8 else rng.choice([0, 4, 100, 2**20])
+        need = 0 if sess < 64 else 1 if sess < 2**14 else 2 if sess < 2**30 else 3
+        if bidi:
+            hdr = varint(0x41, rng.choice([1, 1, 2])) + varint(sess, max(rng.choice([0, 0, 1, 2, 3]), need))
+        else:
+            hdr = varint(0x54, rng.choice([1, 1, 2, 3])) + varint(sess, max(rng.choice([0, 0, 1, 2, 3]), need))
+        payload = [rng.getrandbits(8) for _ in range(rng.choice([0, 1, 2, 5, 9, 30]))]
+        chunks = self.cuts(sid, hdr + payload, len(hdr), rng)
+        # the chunks before the accept cover the header
+        covered, j = 0, 0
+        while covered < len(hdr):
+            covered += (len(chunks[j]) - len("s%d:" % sid)) // 2
+            j += 1
+        j = rng.randrange(j, len(chunks) + 1)
+        maxchunk = max((len(c) - len("s%d:" % sid)) // 2 for c in chunks)
+        end = rng.random()
+        endop = ["f%d" % sid] if end < 0.8 else ["r%d:%d" % (sid, rng.choice([0, 9, 2**20]))] if end < 0.95 else []
+        pre = ["o%d" % sid] + chunks[:j]
+        later = chunks[j:] + endop
+        if rng.random() < 0.3:
+            # everything is there before the accept
+            pre += later
+            later = []
+        pre.append("conn.ab" if bidi else "conn.au")
+        task = "w%d" % sid
+        plan = rng.random()
+        reads = []
+        if plan >= 0.35:
+            reads.append(self.read_op(rng, maxchunk, rng.randrange(1, 5)))
+        if plan >= 0.8:
+            reads.append(self.read_op(rng, maxchunk, rng.randrange(1, 4)))
+        reads.append(self.read_op(rng, maxchunk))
+        cmds = [task + "." + r for r in reads]
+        if rng.random() < 0.15:
+            cmds.insert(rng.randrange(0, len(cmds) + 1), "%s.ss:%d" % (task, rng.choice([0, 3, 2**33])))
+        wthread = []
+        if bidi:
+            writes = rng.random() < 0.5
+            split = rng.random() < 0.5
+            if split and writes:
+                # split first (the send half becomes task w<sid>s), then both halves work side by side
+                pre.append(task + ".sp")
+                wthread, _ = self.write_program(rng, task + "s", sid, limited_cfg)
+            else:
+                if split:
+                    cmds.insert(rng.randrange(0, len(cmds)), task + ".sp")
+                if writes:
+                    w, _ = self.write_program(rng, task, sid, limited_cfg)
+                    cmds = self.merge(rng, cmds, w)
+        thread = self.merge(rng, self.merge(rng, later, cmds), wthread)
+        return pre, thread
+
+    def datagram_ops(self, rng, connect):
+        """(ops, malformed): datagrams in both directions over the simulated transport"""
+        k = rng.random()
+        if k < 0.3:
+            return ["conn.dgs:" + hx([rng.getrandbits(8) for _ in range(rng.choice([0, 1, 3, 20]))])], False
+        payload = [rng.getrandbits(8) for _ in range(rng.choice([0, 0, 1, 4, 30]))]
+        bad = False
+        if k < 0.6:
+            q = connect // 4
+            need = 0 if q < 64 else 1 if q < 2**14 else 2 if q < 2**30 else 3
+            d = varint(q, max(rng.choice([0, 0, 1, 2, 3]), need)) + payload
+        elif k < 0.8:
+            q = rng.choice([0, 1, 63, 64, 16383, 16384, 2**30 - 1, 2**30, 2**60 - 1])
+            d = varint(q) + payload
+        elif k < 0.9:
+            # truncated quarter stream id (incl. the empty datagram)
+            form = rng.choice([0, 1, 2, 3])
+            full = varint(rng.getrandbits(6 if form == 0 else 14 if form == 1 else 30 if form == 2 else 60), form)
+            d = full[:rng.randrange(0, len(full))]
+            bad = True
+        else:
+            d = varint(rng.choice([2**60, 2**60 + 1, 2**61, 2**62 - 1]), 3) + payload
+            bad = True
+        ops = ["d:" + hx(d), "conn.dgr"]
+        if rng.random() < 0.15:
+            ops.reverse()
+        return ops, bad
+
+    def one_case_dg(self, rng):
+        """datagrams only (also used by C18): CONNECT ids in every varint form of the quarter id, datagrams sent for the
+        session, received for it / for other ids / malformed, the close that follows a malformed one"""
+        cfg = "g0,wt=1,ec=1,dg=1,seed=%d" % rng.randrange(0, 1000)
+        connect = rng.choice([0, 4, 8, 60, 64, 252, 256, 16380, 16384, 65532, 65536, 2**30 - 4, 2**30, 2**32, 2**32 - 4,
+                              2**40 + 4, 2**61, 2**62 - 4])
+        ops = ["o2", "s2:" + PEER_SETTINGS, "o%d" % connect, "s%d:%s" % (connect, CONNECT), "conn.WT", "conn.sid"]
+        for _ in range(rng.randrange(1, 7)):
+            if rng.random() < 0.04:
+                # the peer closes the connection / it times out: both datagram calls report the transport's error
+                tail = [rng.choice(["C0", "C7", "C256", "T"])]
+                for _ in range(rng.randrange(1, 4)):
+                    tail.append(rng.choice(["conn.dgs:0a", "conn.dgr", "conn.dgr", "d:00ff"]))
+                if rng.random() < 0.3:
+                    tail.append(rng.choice(["conn.ab", "conn.au"]))
+                if rng.random() < 0.3:
+                    tail = ["conn.dgr"] + tail      # the reader is waiting when it happens
+                ops += tail
+                break
+            d, bad = self.datagram_ops(rng, connect)
+            if rng.random() < 0.05 and d[0].startswith("conn.dgs"):
+                d = ["conn.dgs:" + hx([rng.getrandbits(8) for _ in range(rng.choice([100, 1200, 1500]))])]
+            ops += d
+            if bad:
+                t = rng.random()
+                if t < 0.3:
+                    ops.append("conn.ab")
+                elif t < 0.6:
+                    ops.append("conn.au")
+                elif t < 0.7:
+                    ops += ["conn.dgs:0102", "conn.ab"]
+                break
+        return "wt server %s %s" % (cfg, " ".join(ops))
+
+    def one_case_io(self, rng, dg_focus=False):
+        wt = rng.random() < 0.92
+        wc = rng.choice([0, 1, 2, 3, 5]) if rng.random() < 0.3 else None
+        cfg = "g0,wt=%d,ec=1,dg=1,seed=%d%s" % (1 if wt else 0, rng.randrange(0, 1000), "" if wc is None else ",wc=%d" % wc)
+        connect = rng.choice([0, 4, 8, 12, 60, 64, 256, 16380, 16384, 65536, 2**30, 2**30 + 4])
+        lim = wc is not None
+        ops = []
+        if lim:
+            ops += ["cw3:%d" % U, "cw7:%d" % U, "cw11:%d" % U]
+        ops += ["o2", "s2:" + PEER_SETTINGS]
+        if rng.random() < 0.3 and connect >= 8:
+            ops += ["o0"] + (["cw0:%d" % U] if lim else []) + ["s0:" + GET, "f0", "conn.A", "q0.res", "q0.sr:200", "q0.fi"]
+        ops += ["o%d" % connect] + (["cw%d:%d" % (connect, U)] if lim else []) + ["s%d:%s" % (connect, CONNECT), "conn.WT", "conn.sid"]
+        used_b, used_u, nb, nu = connect + 4, 6, 1, 15
+        threads = []
+
+        def advance(p):
+            for t in threads:
+                while t and rng.random() < p:
+                    ops.append(t.pop(0))
+
+        stop = False
+        for _ in range(rng.randrange(1, 6)):
+            k = rng.random()
+            if dg_focus and k < 0.6:
+                k = 0.95
+            if k < 0.22:
+                # a stream the server opens
+                bidi = rng.random() < 0.5
+                sid = nb if bidi else nu
+                if bidi:
+                    nb += 4
+                else:
+                    nu += 4
+                sess = connect if rng.random() < 0.75 else rng.choice([0, 4, 64, 2**14, 2**30])
+                ops.append(("conn.ob" if bidi else "conn.ou") + ("" if sess == connect and rng.random() < 0.8 else ":%d" % sess))
+                if lim:
+                    hlen = 2 + (1 if sess < 64 else 2 if sess < 2**14 else 4 if sess < 2**30 else 8)
+                    credit = wc
+                    short = rng.random() < 0.06
+                    while credit < hlen:
+                        g = rng.choice([1, 1, 2, 3, 9])
+                        if short and credit + g >= hlen:
+                            break
+                        ops.append("gw%d:%d" % (sid, g))
+                        credit += g
+                        advance(0.2)
+                    if credit < hlen:
+                        stop = True     # open_bi / open_uni keeps waiting: the session task is busy for ever
+                        break
+                if rng.random() < 0.85:
+                    w, _ = self.write_program(rng, "w%d" % sid, sid, lim)
+                    if bidi and rng.random() < 0.15:
+                        w.append("w%d.ss:%d" % (sid, rng.choice([1, 77])))
+                    threads.append(w)
+            elif k < 0.85:
+                bidi = rng.random() < 0.5
+                if bidi:
+                    sid = used_b
+                    used_b += 4
+                else:
+                    sid = used_u
+                    used_u += 4
+                pre, thread = self.incoming(rng, sid, bidi, connect, lim)
+                if not bidi and not wt:
+                    ops += [o for o in pre if not o.startswith("conn.")] + ["conn.au"]
+                    stop = True         # the session task now waits in accept_uni for ever
+                    break
+                ops += pre
+                threads.append(thread)
+            else:
+                d, bad = self.datagram_ops(rng, connect)
+                ops += d
+                if bad:
+                    # the connection error surfaces at the next accept
+                    t = rng.random()
+                    if t < 0.3:
+                        ops.append("conn.ab")
+                    elif t < 0.6 and wt:
+                        ops.append("conn.au")
+                    elif t < 0.8:
+                        ops += ["o%d" % used_b, "s%d:%s" % (used_b, hx(varint(0x41, 1) + varint(connect) + [1, 2])), "conn.ab"]
+                    stop = True
+                    break
+            advance(0.45)
+        # the rest of every thread, interleaved
+        rest = []
+        for t in threads:
+            rest = self.merge(rng, rest, t)
+        ops += rest
+        return "wt server %s %s" % (cfg, " ".join(ops))
+
     def cases(self, tier, rng):
-        return [self.one_case(rng) for _ in range(6000 if tier == "thorough" else 1200)]
+        big = tier == "thorough"
+        L = [self.one_case_basic(rng) for _ in range(6000 if big else 1200)]
+        L += [self.one_case_io(rng) for _ in range(200000 if big else 30000)]
+        L += [self.one_case_io(rng, dg_focus=True) for _ in range(20000 if big else 4000)]
+        L += [self.one_case_dg(rng) for _ in range(10000 if big else 2000)]
+        return L
 
     def shrink_candidates(self, line):
         w = line.split()
